@@ -747,10 +747,14 @@ def oracle_tree(ctx, S, br, leaves, rep, seen):
 
 
 PARTIAL = [
-    {"theorem": "mprocess_state_partial", "missing": "closed formulas HS_x rho / p_x, weight*p_x are for the no-truncation regime; the eps_zero branch is stated exactly for all inputs in mprocess_state_exact (+ truncated_probs_sum, truncated_weighted_state, post_states_normalised), so nothing of for_States is left unproved"},
-    {"theorem": "ensemble_step_partial / compose_assoc_mprocess_partial", "missing": "ensemble-level layout is proved in the no-truncation regime (truncated outcomes: per-state exact statement only); zero-distribution branch not covered; equality is at the level of the unnormalised states p·rho and the reported shape, not of the normalised StateEnsemble object"},
-    {"theorem": "mode1_to_povm_partial", "missing": "real eigenvector matrices, pairwise different eigenvalues, fold form of the spectral sum; repeated eigenvalues (dict grouping) and the complex case are covered by the correspondence / oracle only; mode 0 (sqrtm) not modelled (D14 open)"},
-    {"theorem": "compose_physical CP part", "missing": "complete positivity of compositions (Kraus products) not proved; TP/identity-sum parts proved (tp_comp_tp, povm_gate_identity_sum, povm_mprocess_identity_sum, mprocess_prob_sum_one)"},
+    {"theorem": "assoc_mprocess_gate_state_default_eps_partial", "missing": "false for a non-default eps_zero (witness assoc_mprocess_gate_state_eps_fails; open finding D16: M∘G / G∘M / M∘M are rebuilt with the default eps_zero)"},
+    {"theorem": "bracketing on the executed path", "missing": "tree_eval_instruments / tree_bracketing_instruments / composeChain_eq_rightNested cover every chain of gates and measurement processes on Tree.eval / composeChain (outcome maps, layout, shape; eps_zero is reset by compose); chains ending in a state or starting with a POVM have the exact triples (assoc_*), the forStates-level lemmas and ensemble_step_partial / compose_assoc_mprocess_partial, not one ∀-length theorem on compose"},
+    {"theorem": "mprocess_state_partial", "missing": "closed formulas HS_x rho / p_x, weight*p_x are for the no-truncation regime; the eps_zero branch: mprocess_state_exact (definitional closed form) + truncated_probs_sum, truncated_weighted_state, post_states_normalised"},
+    {"theorem": "ensemble_step_partial / compose_assoc_mprocess_partial / assoc_povm_mprocess_state_partial", "missing": "no-truncation regime, zero-distribution branch not covered; stated on forStates / bornRaw (unnormalised states, raw weights), not on mpState / mpEnsemble / povmEnsemble through C16.ctor; peShape is generated but only the correspondence ties it"},
+    {"theorem": "Born distribution", "missing": "born_sum_one, born_nonneg are about bornRaw, truncNorm_sum_one / truncNorm_nonneg / truncNorm_generic about truncate_and_normalize; the composition povmState = ctor ∘ truncNorm ∘ bornRaw is not assembled into one statement"},
+    {"theorem": "a gate acts through its Kraus operators", "missing": "no theorem (to_kraus_matrices is C02's conversion); checked by oracle_kraus on the real code only"},
+    {"theorem": "mode1_to_povm_partial", "missing": "real eigenvector matrices, pairwise different eigenvalues, fold form of the spectral sum (not identified with eighRecon); repeated eigenvalues, the complex case, mode1Apply and mode 0 (sqrtm, D14 open) are covered by correspondence / oracle only"},
+    {"theorem": "compose_physical", "missing": "only the equality parts (tp_comp_tp, povm_gate_identity_sum, povm_mprocess_identity_sum, mprocess_prob_sum_one); complete positivity of compositions and SumTP of M∘M are not proved"},
 ]
 
 
@@ -805,6 +809,7 @@ def oracle(ctx, volume=1):
     oracle_generate(ctx, volume)
     oracle_truncation(ctx, volume)
     oracle_kraus(ctx, volume)
+    oracle_eps_zero(ctx, volume)
     oracle_list_args(ctx)
 
 
@@ -1028,6 +1033,38 @@ def oracle_kraus(ctx, volume=1):
                         break
             except Exception as e:  # noqa
                 ctx.violate("C06/kraus/MProcess/raises", f"{type(e).__name__}: {e} ({name} after a measurement, {kind})", rep)
+
+
+
+def oracle_eps_zero(ctx, volume=1):
+    """a measurement process constructed with a non-default `eps_zero`: the composites M∘G, G∘M, M∘M must keep treating
+    its outcomes the same way (all bracketings agree), i.e. carry its `eps_zero`"""
+    g = ctx.npgen(10)
+    S = get_sys("qubit")
+    for t in range(2 * volume):
+        eps = [1e-4, 1e-3][t % 2]
+        c = eps / 100                      # an outcome probability between the default threshold 1e-8 and eps_zero
+        groups = [[np.sqrt(c) * qobj.rand_unitary(g, S.d)], [np.sqrt(1 - c) * qobj.rand_unitary(g, S.d)]]
+        M = mk_mprocess(g, S, 2, groups=groups, eps_zero=eps)["obj"]
+        G = mk_gate(g, S, unitary=True)["obj"]
+        st = mk_state(g, S)["obj"]
+        rep = {"replay_kind": "eps_zero", "t": t, "eps_zero": eps, "outcome_probability": c, "volume": volume}
+        ctx.case(("eps_zero", t), sample={"op": "non-default eps_zero", "eps_zero": eps, "p": c})
+        sig = "C06/compose/eps_zero-dropped"
+        try:
+            MG, GM, MM = _compose_qoperations(M, G), _compose_qoperations(G, M), _compose_qoperations(M, M)
+            pairs = [("(M∘G)∘ρ vs M∘(G∘ρ)", _compose_qoperations(MG, st), _compose_qoperations(M, _compose_qoperations(G, st))),
+                     ("(G∘M)∘ρ vs G∘(M∘ρ)", _compose_qoperations(GM, st), _compose_qoperations(G, _compose_qoperations(M, st)))]
+        except Exception as e:  # noqa
+            ctx.violate("C06/compose/eps_zero/raises", f"{type(e).__name__}: {e}", rep)
+            continue
+        bad = [n for n, o in (("M∘G", MG), ("G∘M", GM), ("M∘M", MM)) if o.eps_zero != eps]
+        diff = [n for n, a, b in pairs if tuple(a.prob_dist.shape) != tuple(b.prob_dist.shape)
+                or not np.allclose(a.prob_dist.ps, b.prob_dist.ps, atol=1e-9)
+                or not all(np.allclose(x.vec, y.vec, atol=1e-7) for x, y in zip(a.states, b.states))]
+        if bad or diff:
+            ctx.violate(sig, f"MProcess with eps_zero={eps} and an outcome of probability {c}: composites {bad} carry the default "
+                             f"eps_zero; bracketings that disagree: {diff}", rep)
 
 
 def oracle_truncation(ctx, volume=1):
